@@ -1227,7 +1227,7 @@ pub fn run(ctx: &mut Ctx) {
     let mut batch: JsBatch<C19Js> = JsBatch::new(ctx, limit);
     let all_targets: [&str; 3] = ["canister_call", "agent", "stub"];
 
-    let assets: Vec<ProgramCase> = asset_cases();
+    let assets: Vec<ProgramCase> = asset_cases().into_iter().chain(catalogue_cases()).collect();
     if !assets.is_empty() {
         let saved = ctx.max_cases;
         let n = assets.len() as u64;
